@@ -128,17 +128,138 @@ func (*prop) ID() string { return "C09" }
 
 var hostReg sync.Map // *reverseproxy.Host -> *kase
 
+// Hosts that a loop iteration with dynamic upstreams allocates are only known to the harness once
+// the step is over; what happens to them before is kept here and replayed at registration.
+type pendingEvent struct {
+	kind, delta int
+	result      int64
+}
+
+var (
+	pendMu  sync.Mutex
+	pending = map[*reverseproxy.Host][]pendingEvent{}
+)
+
 func countHook(h *reverseproxy.Host, kind int, delta int, result int64) {
-	v, ok := hostReg.Load(h)
-	if !ok {
+	if v, ok := hostReg.Load(h); ok {
+		v.(*kase).onCount(h, kind, delta, result)
 		return
 	}
-	v.(*kase).onCount(h, kind, delta, result)
+	pendMu.Lock()
+	if v, ok := hostReg.Load(h); ok {
+		pendMu.Unlock()
+		v.(*kase).onCount(h, kind, delta, result)
+		return
+	}
+	if len(pending) > 20000 {
+		pending = map[*reverseproxy.Host][]pendingEvent{}
+	}
+	pending[h] = append(pending[h], pendingEvent{kind, delta, result})
+	pendMu.Unlock()
+}
+
+// register makes Host h an object of case k (caller holds no lock) and replays its earlier events.
+func (k *kase) register(h *reverseproxy.Host) int {
+	k.mu.Lock()
+	idx, ok := k.objIdx[h]
+	if ok {
+		k.mu.Unlock()
+		return idx
+	}
+	idx = len(k.objs)
+	k.objs = append(k.objs, h)
+	k.objIdx[h] = idx
+	k.forgetsSeen = append(k.forgetsSeen, 0)
+	k.dueTotal = append(k.dueTotal, 0)
+	k.mu.Unlock()
+	pendMu.Lock()
+	hostReg.Store(h, k)
+	evs := pending[h]
+	delete(pending, h)
+	pendMu.Unlock()
+	for _, e := range evs {
+		k.onCount(h, e.kind, e.delta, e.result)
+	}
+	return idx
+}
+
+// DynSource is a dynamic upstream source (module http.reverse_proxy.upstreams.verif_c09): like the
+// shipped sources it returns brand-new Upstream values for its addresses on every call.
+type DynSource struct {
+	Dials []string `json:"dials,omitempty"`
+}
+
+func (DynSource) CaddyModule() caddy.ModuleInfo {
+	return caddy.ModuleInfo{ID: "http.reverse_proxy.upstreams.verif_c09", New: func() caddy.Module { return new(DynSource) }}
+}
+
+var dynReg sync.Map // first dial address -> *kase
+
+type dynCall struct {
+	rid int
+	ups []*reverseproxy.Upstream
+}
+
+func (d DynSource) GetUpstreams(r *http.Request) ([]*reverseproxy.Upstream, error) {
+	ups := make([]*reverseproxy.Upstream, len(d.Dials))
+	for i, a := range d.Dials {
+		ups[i] = &reverseproxy.Upstream{Dial: a}
+	}
+	if len(d.Dials) > 0 {
+		if v, ok := dynReg.Load(d.Dials[0]); ok {
+			k := v.(*kase)
+			rid, _ := strconv.Atoi(r.Header.Get("X-Rid"))
+			k.mu.Lock()
+			k.dynCalls = append(k.dynCalls, dynCall{rid: rid, ups: ups})
+			k.mu.Unlock()
+		}
+	}
+	return ups, nil
+}
+
+// registerDynHosts gives object numbers to the Hosts the loop iterations since the last step
+// allocated, in the order fillHost allocated them.
+func (k *kase) registerDynHosts() {
+	k.mu.Lock()
+	calls := k.dynCalls[k.dynSeen:]
+	k.dynSeen = len(k.dynCalls)
+	k.mu.Unlock()
+	for _, c := range calls {
+		for _, u := range c.ups {
+			if u.Host != nil {
+				k.register(u.Host)
+			}
+		}
+	}
+}
+
+// reqObj: the Host object request r (parked at backend r.at) is being sent to.
+func (k *kase) reqObj(r *reqSt) int {
+	if !r.cfg.st.dyn {
+		return r.cfg.objOfKey(r.at)
+	}
+	k.mu.Lock()
+	defer k.mu.Unlock()
+	for i := len(k.dynCalls) - 1; i >= 0; i-- {
+		if k.dynCalls[i].rid != r.id {
+			continue
+		}
+		for _, u := range k.dynCalls[i].ups {
+			if u.Dial == k.dial(r.at) && u.Host != nil {
+				if idx, ok := k.objIdx[u.Host]; ok {
+					return idx
+				}
+			}
+		}
+		break
+	}
+	return -1
 }
 
 func (p *prop) init() error {
 	p.once.Do(func() {
 		caddy.RegisterModule(Probe{})
+		caddy.RegisterModule(DynSource{})
 		reverseproxy.VerifSetCountHook(countHook)
 		if err := os.MkdirAll("/verif/.run", 0o755); err != nil {
 			p.baseErr = err
@@ -155,6 +276,12 @@ func (p *prop) init() error {
 			}},
 		}
 		p.base, p.baseErr = caddy.ProvisionContext(cfg)
+		if p.baseErr == nil {
+			// reverse_proxy's Provision asks for the events app; Context.App loads it lazily into
+			// the configuration's app table, which is not safe to do from several cases at once:
+			// load it here, once, so that later lookups only read
+			_, p.baseErr = p.base.App("events")
+		}
 	})
 	return p.baseErr
 }
@@ -186,7 +313,8 @@ type step struct {
 	r    int
 	q    int
 	s    int
-	x    int // max_requests of the first upstream (0 = not set)
+	x    int  // max_requests of the first upstream (0 = not set)
+	dyn  bool // Y step: the upstreams come from a dynamic source
 	get  bool
 	rid  int
 	out  string
@@ -251,10 +379,11 @@ func parseStep(s string, K int) (st step, ok bool) {
 	}
 	st.op = f[0][0]
 	switch st.op {
-	case 'L':
-		if len(f) != 8 && len(f) != 9 {
+	case 'L', 'Y':
+		if len(f) != 8 && !(len(f) == 9 && st.op == 'L') {
 			return st, false
 		}
+		st.dyn = st.op == 'Y'
 		if len(f) == 9 {
 			var okx bool
 			st.x, okx = num(f[8])
@@ -453,11 +582,13 @@ type kase struct {
 	dueTotal       []int
 	failures       []core.Failure
 	tags           map[string]bool
-	done           []step // steps executed so far
-	lastCounted    int    // failures counted during the last step
-	forgetTimedOut bool   // a due forgetter did not run within the settle wait
-	cf             bool   // configurations are delivered as Caddyfile where possible
-	raced          bool   // see the O/A step: a retry that only scheduler noise makes possible
+	done           []step    // steps executed so far
+	lastCounted    int       // failures counted during the last step
+	forgetTimedOut bool      // a due forgetter did not run within the settle wait
+	cf             bool      // configurations are delivered as Caddyfile where possible
+	dynCalls       []dynCall // every GetUpstreams call of the dynamic source, in order (under mu)
+	dynSeen        int
+	raced          bool // see the O/A step: a retry that only scheduler noise makes possible
 	infra          string
 }
 
@@ -593,6 +724,15 @@ func (k *kase) handlerJSON(st step, bad bool) []byte {
 				"routes": []any{map[string]any{"handle": []any{map[string]any{"handler": "verif_c09_probe", "mode": "err"}}}}},
 		},
 	}
+	if st.dyn {
+		delete(m, "upstreams")
+		dials := []string{}
+		for _, key := range st.keys {
+			dials = append(dials, k.dial(key))
+		}
+		m["dynamic_upstreams"] = map[string]any{"source": "verif_c09", "dials": dials}
+		dynReg.Store(dials[0], k)
+	}
 	if st.p {
 		pa := map[string]any{}
 		if st.d > 0 {
@@ -630,7 +770,7 @@ func (k *kase) handlerJSON(st step, bad bool) []byte {
 // as a JSON object; ok=false if the step cannot be written as Caddyfile (an upstream's own
 // max_requests; passive checks present but with no option set).
 func (k *kase) viaCaddyfile(st step) (map[string]any, bool) {
-	if st.x > 0 || (st.p && st.d == 0 && st.m == 0 && st.q == 0 && st.s == 0) {
+	if st.dyn || st.x > 0 || (st.p && st.d == 0 && st.m == 0 && st.q == 0 && st.s == 0) {
 		return nil, false
 	}
 	var b strings.Builder
@@ -712,20 +852,9 @@ func (k *kase) load(st step, bad bool) (ev string) {
 	if c.maxFails == 0 {
 		c.maxFails = 1
 	}
-	k.mu.Lock()
 	for _, u := range h.Upstreams {
-		idx, ok := k.objIdx[u.Host]
-		if !ok {
-			idx = len(k.objs)
-			k.objs = append(k.objs, u.Host)
-			k.objIdx[u.Host] = idx
-			k.forgetsSeen = append(k.forgetsSeen, 0)
-			k.dueTotal = append(k.dueTotal, 0)
-			hostReg.Store(u.Host, k)
-		}
-		c.objs = append(c.objs, idx)
+		c.objs = append(c.objs, k.register(u.Host))
 	}
-	k.mu.Unlock()
 	k.cfgs = append(k.cfgs, c)
 	old := k.cur
 	k.cur = c
@@ -808,6 +937,7 @@ func (k *kase) newReq(get bool) string {
 // settle attributes the failures counted during the step just executed to cfg c, marks the
 // shadow entries that are due and waits until the implementation has forgotten those.
 func (k *kase) settle(c *cfgGen) {
+	k.registerDynHosts()
 	k.mu.Lock()
 	nf := k.newFails
 	k.newFails = nil
@@ -1025,9 +1155,12 @@ func (p *prop) runSched(K int, src stepSource, U time.Duration, cf bool) (impl s
 		var ev string
 		var moved *cfgGen
 		switch st.op {
-		case 'L':
+		case 'L', 'Y':
 			ev = k.load(st, false)
 			k.tag("load")
+			if st.dyn {
+				k.tag("dynamic-upstreams")
+			}
 			if len(k.cfgs) > 1 {
 				k.tag("reload")
 			}
@@ -1189,6 +1322,9 @@ func (k *kase) teardown() {
 	}
 	for _, b := range k.backends {
 		b.closeAll()
+	}
+	for key := 0; key < k.K; key++ {
+		dynReg.CompareAndDelete(k.dial(key), k)
 	}
 	k.mu.Lock()
 	for _, h := range k.objs {
